@@ -3732,7 +3732,12 @@ class CaseNode(Node):
 
             # check if we need else (is this a finishing state)
             if converted_states[processing] in new_dfa.accepting_states:
-                continue
+                # A finishing state needs no error transition of its own -- unless one of the patterns that can still continue
+                # does so on "everything else" (inverted classes): the symbols it excludes must then be listed explicitly, or
+                # they would be swallowed by that Else instead of ending the match.
+                continuing_else = converted_states[processing][DFTransition.Else]
+                if not actual_else or DFTransition.Else in actual_else or continuing_else is None or continuing_else.error_handling:
+                    continue
 
             if DFTransition.Else in actual_else:
                 # just use it
